@@ -63,6 +63,19 @@ CLAIMED["C03"] = dict(
     technique=E2 + "; uninterpreted matrix functions + dtype theory",
 )
 
+CLAIMED["C13"] = dict(
+    category="proof",
+    text=("The real _amortized_computation of both list classes, the counter update, the NaN/Inf guard and compress_preconditioner_list are executed "
+          "with a matrix routine that may throw (one symbolic fault bit per call) on two blocks / three factors: on every feasible path a failed factor keeps "
+          "its previous matrix, a computed matrix is stored only after factor and result passed the NaN/Inf checks, the per-block counter resets / increments "
+          "by one / raises exactly past a symbolic tolerance, a raising step has written no parameter, and a mask change preserves every block's counter "
+          "(representation invariant local[b] = run[b], all 8x8 old/new masks on three blocks)."),
+    design_ref="DESIGN.md §4/C13",
+    note=("matrix routine by contract (returns or throws); isnan/isinf uninterpreted predicates; two/three generic blocks; histories by induction over the "
+          "counter invariant; bounded native fault-injection x mask histories through the real optimizer reported separately"),
+    technique=E2 + "; ghost history variable per block, representation invariant over masks",
+)
+
 NOT_YET = "no check committed yet for this property (work in progress; see DESIGN.md for the planned contract)"
 
 
